@@ -206,6 +206,18 @@ func drawStructured(rt *rapid.T, fam string) (structCert, bool) {
 		mk := func(lbl string) (int, []byte) {
 			n := rapid.SampledFrom([]int{1, 63, 64, 65, 66, 32767, 32768, 32769, 33000}).Draw(rt, lbl)
 			unit := rapid.SampledFrom([]string{"a", "é", "€"}).Draw(rt, lbl+"unit")
+			if rapid.IntRange(0, 3).Draw(rt, lbl+"padded") == 0 {
+				// long only because of blanks around a short value
+				core := rapid.SampledFrom([]string{"Alice", "A", strings.Repeat("b", 64), strings.Repeat("c", 65)}).Draw(rt, lbl+"core")
+				pad := strings.Repeat(" ", n)
+				switch rapid.IntRange(0, 2).Draw(rt, lbl+"side") {
+				case 0:
+					return n + len(core), []byte(core + pad)
+				case 1:
+					return n + len(core), []byte(pad + core)
+				}
+				return 2*n + len(core), []byte(pad + core + pad)
+			}
 			return n, []byte(strings.Repeat(unit, n))
 		}
 		gl, gv := mk("given")
